@@ -19,10 +19,13 @@ from harness import common as C
 RULE = ('histories over the alphabet {read_x, read_y, read_r, read_t, crop, pad1, pad21, padshape0, mask, mask_r, fill, spike_clip, '
         'remove_piston, remove_tiptilt, remove_power, recenter, latcal2, latcal037, strip_latcal, filter, exact_xy, exact_x, pvr, slices, '
         'copy, psd} by prefix-shared DFS: quick = length 3 over 21 of the operations on 2 configurations and length 2 over all 26 on 26 more; '
-        'thorough = length 4 on 1, length 3 on 14, length 2 on the other 34, length 5 over the 11 coordinate-relevant operations on 1; '
+        'thorough = length 4 on 1, length 3 on 11, length 2 on the others, length 5 over the 11 coordinate-relevant operations on 1; '
         'configurations = shape in {8x8, 9x7, 12x9, 7x10, 7x7} x invalid pattern in {none, circular, ragged edge, interior dropouts, mixed '
         'NaN/+inf/-inf} x dx in {1, 0.37}; dx = 0 (constructor without lateral calibration) with length-2 histories over the operations '
-        'that do not divide by dx; seeded random histories up to length 40 with value-level model comparison at every step; crop '
+        'that do not divide by dx; memory layouts: data Fortran-ordered / a transposed view / strided / negatively strided x every invalid '
+        'pattern x shapes 9x7, 7x10, every operation (length 1; length 2 on 4 (quick), length 2 on all and 3 on 4 (thorough)), each history '
+        'run on a C-contiguous copy as well and the two objects compared after every step; seeded random histories up to length 40 (random '
+        'layout) with value-level model comparison at every step; crop '
         'additionally on every shape of a list (wide, tall, square, odd/even, 1-wide) x all 16 combinations of touching-the-edge / '
         'all-invalid margin on the four sides x two margin-width assignments x caches empty/populated. Every step of every history is '
         'one case; a case is non-trivial unless the operation is a bare read on an object whose caches are already populated; '
@@ -90,10 +93,86 @@ def make_data(shape, pattern, data_seed):
     return z
 
 
+LAYOUTS = ['C', 'F', 'T', 'strided', 'neg']
+
+
+def relayout(z, layout):
+    """the same values in another memory layout: 'F' Fortran-contiguous, 'T' a transposed view of a strided buffer,
+    'strided' every other sample of a larger buffer, 'neg' negative strides along both axes"""
+    m, n = z.shape
+    if layout == 'C':
+        return np.ascontiguousarray(z)
+    if layout == 'F':
+        return np.asfortranarray(z)
+    if layout == 'T':
+        base = np.full((n, 2 * m), 7.5)
+        v = base[:, ::2].T
+    elif layout == 'strided':
+        base = np.full((2 * m, 2 * n + 1), 7.5)
+        v = base[::2, ::2][:, :n]
+    elif layout == 'neg':
+        base = np.empty((m, n))
+        v = base[::-1, ::-1]
+    else:
+        raise ValueError(layout)
+    v[...] = z
+    return v
+
+
 def make_obj(cfg):
     ig = _impl()
     z = make_data(tuple(cfg['shape']), cfg['pattern'], cfg['data_seed'])
-    return ig.Interferogram(z, dx=cfg['dx'])
+    layout = cfg.get('layout', 'C')
+    i = ig.Interferogram(relayout(z, layout), dx=cfg['dx'])
+    if layout != 'C':
+        # the same history is run on a C-contiguous copy: memory layout must not matter
+        i._verif_twin = ig.Interferogram(np.ascontiguousarray(z).copy(), dx=cfg['dx'])
+    return i
+
+
+def clone(i, cfg):
+    """deep copy for the prefix-shared sweeps; the data of the copy is put back into the configuration's memory layout
+    (ndarray deep copies normalise strided / negatively strided arrays)"""
+    j = copy.deepcopy(i)
+    layout = cfg.get('layout', 'C')
+    if layout != 'C':
+        j.data = relayout(j.data, layout)
+    return j
+
+
+def twin_failures(i, op):
+    """run `op` on the C-contiguous twin as well and compare the two objects"""
+    tw = getattr(i, '_verif_twin', None)
+    if tw is None:
+        return []
+    keep = list(_OPF)
+    out = []
+    try:
+        with warnings.catch_warnings():
+            warnings.simplefilter('ignore')
+            apply_op(tw, op)
+    except Exception as ex:
+        _OPF[:] = keep
+        return [f'{op} raised {type(ex).__name__} on the C-contiguous copy of the same data but not on the original layout']
+    _OPF[:] = keep
+    a, b = i.data, tw.data
+    if a.shape != b.shape:
+        return [f'{op}: data shape {a.shape} but {b.shape} for the same history on a C-contiguous copy']
+    fa, fb = np.isfinite(a), np.isfinite(b)
+    sc = max(1.0, float(np.max(np.abs(b[fb]))) if fb.any() else 1.0)
+    same = np.array_equal(fa, fb) and np.array_equal(np.isnan(a), np.isnan(b)) and \
+        (not fb.any() or float(np.max(np.abs(a[fb] - b[fb]))) <= 1e-8 * sc)
+    if not same:
+        if op in ('remove_tiptilt', 'remove_power') and not (_tilt_design_ok(tw) if op == 'remove_tiptilt' else _power_design_ok(b)):
+            tw.data = np.ascontiguousarray(a).copy()      # rank-deficient fit: the minimum-norm solution is ill-conditioned; resynchronise
+            return []
+        k = int(np.argmax(np.where(fa & fb, np.abs(a - b), 0))) if (fa & fb).any() else 0
+        out.append(f'{op}: the data differ from the same history on a C-contiguous copy of the data '
+                   f'(largest difference {float(np.nanmax(np.where(fa & fb, np.abs(a - b), 0))) if (fa & fb).any() else float("nan")!r} '
+                   f'at flat index {k}, data scale {sc!r}; invalid patterns equal: {bool(np.array_equal(fa, fb))})')
+    if float(i.dx) != float(tw.dx):
+        out.append(f'{op}: dx {float(i.dx)} but {float(tw.dx)} on the C-contiguous copy')
+    return out
 
 
 def _bbox(data):
@@ -514,7 +593,7 @@ class Runner:
                 warnings.simplefilter('ignore')
                 _OPF.clear()
                 reqs = apply_op(i, op)
-                fails = list(_OPF) + step_failures(before, op, i)
+                fails = list(_OPF) + step_failures(before, op, i) + twin_failures(i, op)
         except Exception as ex:
             ctx.pred_fail('history', case, f'{op} raised {type(ex).__name__}: {ex}')
             ctx.disagree('history', case, f'raised {type(ex).__name__}', 'model returns a state')
@@ -614,7 +693,7 @@ def _dfs(run, cfg, i, prefix, reqs, alphabet, depth, values=False):
     if depth == 0:
         return
     for op in alphabet:
-        j = copy.deepcopy(i)
+        j = clone(i, cfg)
         r = run.do_step(cfg, prefix, j, op, values=values and len(prefix) < 2)
         if r is None:
             continue
@@ -797,6 +876,16 @@ def correspondence(ctx):
         ctx.case('constructor', cfg, nontrivial=True)
         if i0._latcaled is not True or any(getattr(i0, a) is not None for a in ('_x', '_y', '_r', '_t')):
             ctx.disagree('constructor', cfg, f'_latcaled={i0._latcaled}', 'dx != 0: laterally calibrated; all caches empty')
+    # memory layouts: Fortran-ordered / transposed / strided / negatively strided data, every invalid pattern, every operation;
+    # each history also runs on a C-contiguous copy of the same data and the two objects are compared after every step
+    lcfgs = []
+    for k, (lay, pat, shape) in enumerate(itertools.product(LAYOUTS[1:], PATTERNS, [(9, 7), (7, 10)])):
+        lcfgs.append({'shape': list(shape), 'pattern': pat, 'dx': DXS[k % 2], 'data_seed': 3000 + k, 'layout': lay})
+    lorder = list(ctx.rng.permutation(len(lcfgs)))
+    ldeep = set(lorder[:ctx.scale(4 + 2 * widen, 4)])
+    for k, cfg in enumerate(lcfgs):
+        depth = (ctx.scale(2, 3) if k in ldeep else ctx.scale(1, 2))
+        _dfs(run, cfg, make_obj(cfg), [], [], ALPHABET if depth < 3 else DFS3_ALPHABET, depth)
     # exhaustive, prefix-shared
     ndeep = ctx.scale(2 + widen, 1)
     deep = [cfgs[k] for k in order[:ndeep]]
@@ -809,7 +898,7 @@ def correspondence(ctx):
     if not ctx.thorough:
         mid = mid[:26]
     for k, cfg in enumerate(mid):
-        _dfs(run, cfg, make_obj(cfg), [], [], ALPHABET, ctx.scale(2, 3) if not (ctx.thorough and k >= 14) else 2,
+        _dfs(run, cfg, make_obj(cfg), [], [], ALPHABET, ctx.scale(2, 3) if not (ctx.thorough and k >= 11) else 2,
              values=(k < 6))
     run.flush()
     if ctx.thorough:
@@ -819,7 +908,8 @@ def correspondence(ctx):
     # random long histories with value-level comparison at every step
     nrand = ctx.scale(120, 800)
     for _ in range(nrand):
-        cfg = dict(cfgs[int(ctx.rng.integers(len(cfgs)))], data_seed=int(ctx.rng.integers(1, 10 ** 6)))
+        cfg = dict(cfgs[int(ctx.rng.integers(len(cfgs)))], data_seed=int(ctx.rng.integers(1, 10 ** 6)),
+                   layout=LAYOUTS[int(ctx.rng.integers(len(LAYOUTS)))])
         L = int(ctx.rng.integers(4, 41))
         ops = [ALPHABET[int(k)] for k in ctx.rng.integers(len(ALPHABET), size=L)]
         i = make_obj(cfg)
@@ -855,7 +945,7 @@ def run_history(cfg, ops, verbose=False):
                 warnings.simplefilter('ignore')
                 _OPF.clear()
                 apply_op(i, op)
-                f = list(_OPF) + step_failures(before, op, i)
+                f = list(_OPF) + step_failures(before, op, i) + twin_failures(i, op)
         except Exception as ex:
             f = [f'{op} raised {type(ex).__name__}: {ex}']
             fails += [f'step {k} ({op}): {x}' for x in f]
@@ -881,13 +971,13 @@ def search(ctx, hints):
     for d in (hints.get('disagreements') or []):
         c = d.get('case') or {}
         if 'ops' in c and 'shape' in c:
-            key = (tuple(c['shape']), c['pattern'], c['dx'], c['data_seed'], tuple(c['ops']))
+            key = (tuple(c['shape']), c['pattern'], c['dx'], c['data_seed'], c.get('layout', 'C'), tuple(c['ops']))
             if key not in seen:
                 seen.add(key)
                 cands.append(c)
     cands.sort(key=lambda c: len(c['ops']))
     for c in cands[:150]:
-        cfg = {k: c[k] for k in ('shape', 'pattern', 'dx', 'data_seed')}
+        cfg = {k: c[k] for k in ('shape', 'pattern', 'dx', 'data_seed', 'layout') if k in c}
         for ext in [[]] + [[op] for op in (ALPHABET if cfg['dx'] != 0 else DX0_ALPHABET)]:
             ops = list(c['ops']) + ext
             if len(ops) > 8:
@@ -895,6 +985,13 @@ def search(ctx, hints):
             f = run_history(cfg, ops)
             if f:
                 return {'item': 'history', 'input': dict(cfg, ops=ops), 'detail': f[0]}
+    for lay in LAYOUTS[1:]:
+        for pat in PATTERNS:
+            cfg = {'shape': [5, 7], 'pattern': pat, 'dx': 0.5, 'data_seed': 11, 'layout': lay}
+            for op in ALPHABET:
+                f = run_history(cfg, [op])
+                if f:
+                    return {'item': 'history', 'input': dict(cfg, ops=[op]), 'detail': f[0]}
     pick = [c for c in cfgs if c['shape'] in ([8, 8], [9, 7]) and c['dx'] == 0.37]
     for L in (1, 2, 3):
         for cfg in pick:
@@ -918,7 +1015,7 @@ def replay(inp):
         for x in f:
             print('  VIOLATED:', x)
         return bool(f)
-    cfg = {k: c[k] for k in ('shape', 'pattern', 'dx', 'data_seed')}
+    cfg = {k: c[k] for k in ('shape', 'pattern', 'dx', 'data_seed', 'layout') if k in c}
     print('replaying history', c['ops'], 'on', cfg)
     f = run_history(cfg, c['ops'], verbose=True)
     for x in f:
